@@ -16,18 +16,18 @@ Lemma tfeed_pchar t c : pchar c -> tfeed (t, LG) c = (feed1 t (TChar c), LG).
 Proof.
   intros [Hw Hg]. destruct c as [|a [|b [|c3 [|d [|e r]]]]]; cbn in Hw; try contradiction.
   - inversion Hg as [|? ? Ha _]; subst. unfold ge32 in Ha. cbn [tfeed fold_left tstep].
-    assert (E13 : (a =? 13) = false) by lia. assert (E10 : (a =? 10) = false) by lia. assert (E27 : (a =? 27) = false) by lia. assert (E32 : (a <? 32) = false) by lia.
-    rewrite E13, E10, E27, E32. unfold lead_len. assert (E80 : (a <? 128) = true) by lia. rewrite E80. reflexivity.
+    assert (E13 : (a =? 13) = false) by lia. assert (E10 : (a =? 10) = false) by lia. assert (E8 : (a =? 8) = false) by lia. assert (E27 : (a =? 27) = false) by lia. assert (E32 : (a <? 32) = false) by lia.
+    rewrite E13, E10, E8, E27, E32. unfold lead_len. assert (E80 : (a <? 128) = true) by lia. rewrite E80. reflexivity.
   - destruct Hw as (H1 & H2 & H3). cbn [tfeed fold_left tstep].
-    assert (E13 : (a =? 13) = false) by lia. assert (E10 : (a =? 10) = false) by lia. assert (E27 : (a =? 27) = false) by lia. assert (E32 : (a <? 32) = false) by lia.
-    rewrite E13, E10, E27, E32. unfold lead_len. assert (E80 : (a <? 128) = false) by lia. assert (EE0 : (a <? 224) = true) by lia. rewrite E80, EE0. reflexivity.
+    assert (E13 : (a =? 13) = false) by lia. assert (E10 : (a =? 10) = false) by lia. assert (E8 : (a =? 8) = false) by lia. assert (E27 : (a =? 27) = false) by lia. assert (E32 : (a <? 32) = false) by lia.
+    rewrite E13, E10, E8, E27, E32. unfold lead_len. assert (E80 : (a <? 128) = false) by lia. assert (EE0 : (a <? 224) = true) by lia. rewrite E80, EE0. reflexivity.
   - destruct Hw as (H1 & H3). cbn [tfeed fold_left tstep].
-    assert (E13 : (a =? 13) = false) by lia. assert (E10 : (a =? 10) = false) by lia. assert (E27 : (a =? 27) = false) by lia. assert (E32 : (a <? 32) = false) by lia.
-    rewrite E13, E10, E27, E32. unfold lead_len. assert (E80 : (a <? 128) = false) by lia. assert (EE0 : (a <? 224) = false) by lia. assert (EF0 : (a <? 240) = true) by lia.
+    assert (E13 : (a =? 13) = false) by lia. assert (E10 : (a =? 10) = false) by lia. assert (E8 : (a =? 8) = false) by lia. assert (E27 : (a =? 27) = false) by lia. assert (E32 : (a <? 32) = false) by lia.
+    rewrite E13, E10, E8, E27, E32. unfold lead_len. assert (E80 : (a <? 128) = false) by lia. assert (EE0 : (a <? 224) = false) by lia. assert (EF0 : (a <? 240) = true) by lia.
     rewrite E80, EE0, EF0. reflexivity.
   - destruct Hw as (H1 & H3 & H4). cbn [tfeed fold_left tstep].
-    assert (E13 : (a =? 13) = false) by lia. assert (E10 : (a =? 10) = false) by lia. assert (E27 : (a =? 27) = false) by lia. assert (E32 : (a <? 32) = false) by lia.
-    rewrite E13, E10, E27, E32. unfold lead_len. assert (E80 : (a <? 128) = false) by lia. assert (EE0 : (a <? 224) = false) by lia. assert (EF0 : (a <? 240) = false) by lia.
+    assert (E13 : (a =? 13) = false) by lia. assert (E10 : (a =? 10) = false) by lia. assert (E8 : (a =? 8) = false) by lia. assert (E27 : (a =? 27) = false) by lia. assert (E32 : (a <? 32) = false) by lia.
+    rewrite E13, E10, E8, E27, E32. unfold lead_len. assert (E80 : (a <? 128) = false) by lia. assert (EE0 : (a <? 224) = false) by lia. assert (EF0 : (a <? 240) = false) by lia.
     rewrite E80, EE0, EF0. reflexivity.
 Qed.
 
